@@ -2749,7 +2749,14 @@ class FuncMul(ValueFunc):
             return NULL
 
         if a.isString() and b.isInt():
-            return ValueString(a.value * b.value)
+            try:
+                return ValueString(a.value * b.value)
+            except (OverflowError, MemoryError):
+                raise CklRuntimeError(
+                    ValueString("ERROR"),
+                    "Cannot repeat a string " + str(b.value) + " times",
+                    pos,
+                )
 
         if a.isList() and b.isInt():
             result = ValueList()
